@@ -305,6 +305,25 @@ def blobInit : St Bytes := { fields := [], needs := false, sha := none, chunks :
 /-- A fresh `Commit()/Tag()/Tree()`: dirty, nothing cached. -/
 def freshInit (f : F) : St F := { fields := f, needs := true, sha := none, chunks := none }
 
+def Except.toOpt {α : Type} : Except Err α → Option α
+  | .ok a => some a
+  | .error _ => none
+
+/-- `Commit` / `Tag` / `Tree` as instances of the cache machine (type numbers from the translator's table
+are 1, 4, 2; `objectHeader` looks the name up there). -/
+def commitCls : Cls Commit :=
+  { typeNum := 1, ser := fun c => Except.toOpt (serializeCommit c),
+    deser := fun _ b => Except.toOpt (deserializeCommit b), alias := false }
+
+def tagCls : Cls Tag :=
+  { typeNum := 4, ser := fun t => Except.toOpt (serializeTag t),
+    deser := fun prev b => Except.toOpt (deserializeTag prev b), alias := false }
+
+/-- `Tree` with the Python `sorted_tree_items` (the Rust one agrees on legal names, see Props). -/
+def treeCls (shaLen : Nat) : Cls (List Entry) :=
+  { typeNum := 2, ser := fun es => Except.toOpt (serializeTreeObj es),
+    deser := fun _ b => Except.toOpt (deserializeTreeObj shaLen b), alias := false }
+
 /-- kind of the setter `(cls, name)` in the translator's table (`none`: no such setter). -/
 def setterKind (cls name : String) : Option Nat :=
   (OGen.setters.find? (fun e => e.1 == cls && e.2.1 == name)).map (·.2.2)
